@@ -36,14 +36,17 @@ RIG_MODULES = [
     "rig.machine_control.bmp_controller", "rig.netlist"]
 COMPONENTS_REAL = [
     "all seven placers, allocate, route, routing_tree_to_tables, "
-    "minimise_tables (remove_default_routes, ordered_covering), wrapper",
+    "minimise_tables (remove_default_routes, ordered_covering), wrapper, "
+    "place_and_route_wrapper, build_application_map, build_routing_tables, "
+    "table_is_subset_of / expand_entries / get_common_xs / intersect, "
+    "Machine methods, links_between, longest_dimension_first",
     "BitField", "MachineController / BMPController construction and context "
     "use", "rig.geometry / route.utils module-level random (seeded)"]
 COMPONENTS_STUB = ["pristine forked interpreter as the restart reference",
                    "simulated machine for the controller calls",
                    "structural snapshot function"]
 KINDS = ["place", "allocate", "route", "tables", "minimise", "wrapper",
-         "bitfield", "controller", "covering", "misc"]
+         "bitfield", "controller", "covering", "misc", "toolbox"]
 PLACERS = ["sa_c", "sa_python", "hilbert", "rcm", "breadth_first",
            "sequential", "rand"]
 
@@ -347,6 +350,8 @@ class Caller(object):
             return self.call_covering(t)
         if kind == "misc":
             return self.call_misc(t)
+        if kind == "toolbox":
+            return self.call_toolbox(t)
         return self.call_controller(t)
 
     def norm(self, r):
@@ -444,6 +449,172 @@ class Caller(object):
         n1.sinks.append(prgen.V(3))
         return "entries_nets", canon([e2, len(sinks), [repr(x) for x in
                                                         n1.sinks]])
+
+    def system_info(self, t, W, H):
+        mcmod = rig_module("rig.machine_control.machine_controller")
+        consts = rig_module("rig.machine_control.consts")
+        si = mcmod.SystemInfo(W, H)
+        for x in range(W):
+            for y in range(H):
+                if (x, y) != (0, 0) and t.draw(8) == 0:
+                    continue
+                n = 2 + t.draw(17)
+                states = [consts.AppState.run] + [
+                    consts.AppState.idle if t.draw(6) else
+                    consts.AppState.run for _ in range(n - 1)]
+                links = {l for l in self.Links if t.draw(8)}
+                si[(x, y)] = mcmod.ChipInfo(
+                    num_cores=n, core_states=states, working_links=links,
+                    largest_free_sdram_block=100000 + 1000 * t.draw(100),
+                    largest_free_sram_block=1024 + t.draw(2000),
+                    largest_free_rtr_mc_block=[1024, 3, 0][t.draw_small(3)])
+        return si
+
+    def dense_table(self, t, bits, n):
+        rt = self.rt
+        keys = list(range(1 << bits))
+        prgen.seeded(t).shuffle(keys)
+        routes = [{rt.Routes(t.draw(6))}, {rt.Routes(6 + t.draw(4))},
+                  {rt.Routes(t.draw(6)), rt.Routes(8)}]
+        table = []
+        for k in keys[:n]:
+            src = {None} if t.draw(2) else {rt.Routes(t.draw(6))}
+            mask = ((1 << bits) - 1) & ~t.draw_small(1 << bits, 0.5)
+            table.append(rt.RoutingTableEntry(
+                set(routes[t.draw(3)]), k & mask, mask | 0xffffff00, src))
+        table.sort(key=lambda e: bin(e.mask).count("1"), reverse=True)
+        return table
+
+    def call_toolbox(self, t):
+        """The rest of the public place-and-route / routing-table API: the
+        system-info based wrapper, application map and (deprecated) table
+        builders, table utilities, Machine methods and the router's helper
+        functions."""
+        par, rt = self.par, self.rt
+        which = t.draw(5)
+        if which == 0:
+            machine, g, constraints = self.problem(t)
+            si = self.system_info(t, machine.width, machine.height)
+            pname, pfn, pkw = self.placer(t, None)
+            self.seed_globals(t)
+            vr, nets = g.vertices_resources, g.nets
+            apps = {v: ["a.aplx", "b.aplx"][v.i % 2] for v in vr}
+            cons = constraints[1:]
+            silist = [dict(si), si.width, si.height]
+            label = "place_and_route_wrapper[%s]" % pname
+            r = self.guarded(
+                label, par.place_and_route_wrapper,
+                (vr, apps, nets, g.net_keys, si, cons),
+                {"place": pfn, "place_kwargs": pkw},
+                [vr, apps, nets, g.net_keys, silist, cons,
+                 {k: v for k, v in pkw.items() if k != "random"}])
+            return label, self.norm(r)
+        if which == 1:
+            utils = rig_module("rig.routing_table.utils")
+            bits = 3 + t.draw(3)
+            a = self.dense_table(t, bits, 1 + t.draw(8))
+            b = self.dense_table(t, bits, 1 + t.draw(8))
+            if t.draw(2):
+                b = list(a) + b
+            ignore = [None, 0, 1, 0xff][t.draw(4)]
+            out = []
+            for label, fn, args in (
+                    ("table_is_subset_of", utils.table_is_subset_of, (a, b)),
+                    ("expand_entries", lambda x, i: list(
+                        utils.expand_entries(x, i)), (a, ignore)),
+                    ("get_common_xs", utils.get_common_xs, (a,)),
+                    ("intersect", utils.intersect,
+                     (a[0].key, a[0].mask, b[0].key, b[0].mask))):
+                out.append(self.guarded(label, fn, args, {}, [a, b]))
+            return "table_utils", self.norm(out)
+        if which == 2:
+            rutils = rig_module("rig.place_and_route.route.utils")
+            machine, g, constraints = self.problem(t)
+            self.seed_globals(t)
+            W, H = machine.width, machine.height
+            pairs = [((t.draw(W), t.draw(H)), (t.draw(W), t.draw(H)))
+                     for _ in range(4)]
+            out = [sorted(machine), sorted(
+                (x, y, int(l)) for x, y, l in machine.iter_links()),
+                machine.has_wrap_around_links(),
+                machine.has_wrap_around_links(0.1),
+                [(c in machine, (c[0], c[1], self.Links(2)) in machine)
+                 for c, _ in pairs]]
+            cp = machine.copy()
+            out.append(cp == machine and not (cp != machine))
+            out.append([self.guarded("links_between", rutils.links_between,
+                                     (a, b, machine), {}, [machine])
+                        for a, b in pairs])
+            # the caller edits its machine between two calls
+            for a, b in pairs[:2]:
+                for l in self.Links:
+                    if t.draw(2):
+                        machine.dead_links.add((a[0], a[1], l))
+            machine.dead_chips.add(pairs[3][1])
+            out.append([self.guarded("links_between", rutils.links_between,
+                                     (a, b, machine), {}, [machine])
+                        for a, b in pairs])
+            out.append([cp.issubset(machine), machine.issubset(cp),
+                        sorted(cp) == sorted(machine)])
+            vec = (t.draw(9) - 4, t.draw(9) - 4, t.draw(3) - 1)
+            out.append(self.guarded(
+                "longest_dimension_first",
+                lambda *a: list(rutils.longest_dimension_first(*a)),
+                (vec, pairs[0][0], W, H), {}, [vec]))
+            return "machine_api", self.norm(out)
+        # hand-chained flow ending in the application map and the deprecated
+        # table builder
+        machine, g, constraints = self.problem(t)
+        pname, pfn, pkw = self.placer(t, None)
+        self.seed_globals(t)
+        vr, nets = g.vertices_resources, g.nets
+        ner = rig_module("rig.place_and_route.route.ner")
+        alloc = rig_module("rig.place_and_route.allocate.greedy")
+        putils = rig_module("rig.place_and_route.utils")
+        r = self.guarded("place[%s]" % pname, pfn,
+                         (vr, nets, machine, constraints), pkw,
+                         [vr, nets, machine, constraints])
+        if r[0] != "ok":
+            return "toolbox-chain", self.norm(r)
+        placements = r[1]
+        r = self.guarded("allocate", alloc.allocate,
+                         (vr, nets, machine, constraints, placements), {},
+                         [vr, nets, machine, constraints, placements])
+        if r[0] != "ok":
+            return "toolbox-chain", self.norm(r)
+        allocations = r[1]
+        apps = {v: ["a.aplx", "b.aplx", "c.aplx"][v.i % 3] for v in vr}
+        out = [self.guarded("build_application_map",
+                            putils.build_application_map,
+                            (apps, placements, allocations), {},
+                            [apps, placements, allocations])]
+        r = self.guarded("route", ner.route,
+                         (vr, nets, machine, constraints, placements,
+                          allocations), {},
+                         [vr, nets, machine, constraints, placements,
+                          allocations])
+        if r[0] == "ok":
+            routes = r[1]
+            omit = bool(t.draw(2))
+            out.append(self.guarded(
+                "build_routing_tables[omit=%r]" % omit,
+                putils.build_routing_tables, (routes, g.net_keys, omit), {},
+                [routes, g.net_keys]))
+            if which == 4:
+                si = self.system_info(t, machine.width, machine.height)
+                tl = rig_module("rig.routing_table.utils"
+                                ).build_routing_table_target_lengths(si)
+                r2 = self.guarded("routing_tree_to_tables",
+                                  rt.routing_tree_to_tables,
+                                  (routes, g.net_keys), {},
+                                  [routes, g.net_keys])
+                if r2[0] == "ok":
+                    tables = r2[1]
+                    tl = {c: tl.get(c, 1024) for c in tables}
+                    out.append(self.guarded(
+                        "minimise_tables[target=dict]", rt.minimise_tables,
+                        (tables, tl), {}, [tables, tl]))
+        return "toolbox-chain", self.norm(out)
 
     def call_covering(self, t):
         """Minimisers on small dense tables (few key bits, few routes), where
